@@ -195,6 +195,13 @@ def Prog.bind {X : Type} : Prog Req Val X → (X → Prog Req Val Out) → Prog 
   | .reseed site k, f => .reseed site (k.bind f)
   | .kernel v k, f => .kernel v (k.bind f)
 
+/-- shape shared by every `mask_func`: leading draws (`choose_acceleration`, …) produce `x`; then
+`if return_acs: return acsOf x`, else the remaining draws produce the mask (which ORs in the same
+ACS block computed from the same `x`) -/
+def withAcs {X : Type} (lead : Prog Req Val X) (acsOf : X → Out) (rest : X → Prog Req Val Out)
+    (returnAcs : Bool) : Prog Req Val Out :=
+  lead.bind fun x => if returnAcs then .ret (acsOf x) else rest x
+
 /-! ### op histories -/
 
 /-- operations of a history: `G` generator configurations, `A` call arguments (shape, return_acs) -/
@@ -242,32 +249,33 @@ end
 /-- the statement skeleton of `temp_seed` the model above mirrors -/
 def tempSeedShape : List String := ["get_state", "seed", "try", "yield", "finally", "set_state"]
 
-/-- a Cython kernel call site: is it inside the scope, and is its integer seed argument a draw from
-`self.rng` inside the scope (possibly passed through a helper's parameter) -/
-structure KernelCall where
-  inScope : Bool
-  seedFromPrivateDraw : Bool
-deriving DecidableEq, Repr
+/-- the generated tables are plain data; stream codes: 0 `self.rng`, 1 local `RandomState()`,
+2 `np.random`, 3 torch, 4 python `random`, other = unknown -/
+def srcOfCode (c : Nat) : Src :=
+  if c = 0 then .priv else if c = 1 then .fresh else if c = 2 then .npGlobal
+  else if c = 3 then .torchGlobal else if c = 4 then .pyGlobal else .unknown
 
-def KernelCall.ok (k : KernelCall) : Bool := k.inScope && k.seedFromPrivateDraw
+def Table.ofCodes (l : List (Nat × Bool)) : Table := l.map fun (c, s) => ⟨srcOfCode c, s⟩
 
-/-- a `.pyx` kernel: `srand(<its seed parameter>)` is executed before any `rand()` -/
-structure PyxKernel where
-  srandOfSeedParamFirst : Bool
-deriving DecidableEq, Repr
+/-- a Cython kernel call site `(inScope, seedFromPrivateDraw)`: it is inside the scope and its integer
+seed argument is a draw from `self.rng` inside the scope (possibly passed through a helper's
+parameter) -/
+def kernelCallOk (k : Bool × Bool) : Bool := k.1 && k.2
 
-/-- per generator: it has a `with temp_seed(self.rng, seed)` over its `seed` parameter, at least
-one draw, every site index is in range, and the `return_acs` return sits after the leading draws
-(prefix property: `acsLead` is a prefix of `sites`) -/
-structure GenEntry where
-  name : String
-  scopeOverSeedParam : Bool
-  sites : List Nat
-  acsLead : List Nat
-deriving DecidableEq, Repr
+/-- the generators the property quantifies over -/
+def expectedGenerators : List String :=
+  ["FastMRIRandom", "FastMRIEquispaced", "FastMRIMagic", "CartesianRandom", "CartesianEquispaced",
+   "CartesianMagic", "Gaussian1D", "Gaussian2D", "Radial", "Spiral", "VariableDensityPoisson",
+   "KtRadial", "KtUniform", "KtGaussian1D"]
 
-def GenEntry.ok (n : Nat) (g : GenEntry) : Bool :=
-  g.scopeOverSeedParam && !g.sites.isEmpty && g.sites.all (· < n) && g.acsLead.all (g.sites.contains ·)
-    && !g.acsLead.isEmpty
+/-- per generator `(name, scopeOverSeedParam, sites, acsLead)`: its `mask_func` has exactly one
+`with temp_seed(self.rng, seed)` over its own `seed` parameter, at least one draw, every site index
+is in range, and at least one draw (`choose_acceleration`) precedes the `return_acs` return, all of
+them being draws of the mask branch too -/
+def genOk (n : Nat) (g : String × Bool × List Nat × List Nat) : Bool :=
+  g.2.1 && !g.2.2.1.isEmpty && g.2.2.1.all (· < n) && !g.2.2.2.isEmpty && g.2.2.2.all (g.2.2.1.contains ·)
+
+def gensOk (n : Nat) (gs : List (String × Bool × List Nat × List Nat)) : Bool :=
+  gs.map (·.1) == expectedGenerators && gs.all (genOk n)
 
 end DirectVerif.Rng
